@@ -41,6 +41,7 @@ static void init() {
 }
 bool known_open(const std::string &id) { return g_known.count(id) != 0; }
 int engine_main(int, char **) { return 0; }
+void note_case(const Fields &) {}
 }  // namespace vf
 
 using namespace vf;
